@@ -145,4 +145,80 @@ def newx (p : Par) (r : Row) (t : Rat) : Rat := if p.incr then r.x - t * r.y els
 def inBounds (p : Par) (tol : Rat) (r : Row) (v : Rat) : Prop :=
   (r.l ≠ -p.inf → r.l - tol ≤ v) ∧ (r.u ≠ p.inf → v ≤ r.u + tol)
 
+
+
+/-! ### the dual phase-II ratio test (`ILLratio_dII_test`, ratio.c:638-787)
+
+The same two-pass rule on the dual side.  For a non-basic column `j` of the pivot row, `x` is its
+dual slack (`dz_j` at lower / free, `-dz_j` at upper — non-negative when dual feasible) and `y` the
+rate at which the slack shrinks per unit of step; a free column must keep its reduced cost at 0 and
+blocks in both directions.  In the vocabulary of the primal test this is a row with bounds `[0, inf)`
+(`[0, 0]` for a free column) and an increasing entering variable, which is how the model is written:
+`dII` runs `pass1` / `pass2` on `toRow`. -/
+
+structure DCol where
+  zA : Rat
+  dz : Rat
+  cz : Rat
+  vstat : Nat        -- STAT_UPPER 2, STAT_LOWER 3, STAT_ZERO 4
+  skip : Bool        -- vtype VARTIFICIAL or VFIXED
+deriving Repr, Inhabited
+
+def vUpper : Nat := 2
+def vLower : Nat := 3
+def vZero : Nat := 4
+
+/-- `GET_XY_DRATIOTEST` -/
+def dualXY (lvUpper : Bool) (c : DCol) : Rat × Rat :=
+  let (x, y) := if c.vstat == vUpper then (-c.dz, c.zA) else (c.dz, -c.zA)
+  (x, if lvUpper then -y else y)
+
+def toRow (inf : Rat) (lvUpper : Bool) (c : DCol) : Row :=
+  let (x, y) := dualXY lvUpper c
+  { y := if c.skip then 0 else y, x := x, l := 0, u := if c.vstat == vZero then 0 else inf }
+
+structure DRes where
+  stat : Stat
+  eindex : Int
+  tz : Rat
+  pivot : Rat
+  coeffch : Bool
+  ecoeff : Rat
+deriving Repr, Inhabited
+
+def dPar (inf pivtol dftol : Rat) : Par :=
+  { inf := inf, pivtol := pivtol, pftol := dftol, incr := true, ebounded := false, el := 0, eu := 0 }
+
+def colAt (cols : List DCol) (i : Int) : DCol :=
+  if i < 0 then default else (cols[i.toNat]?).getD default
+
+def dIICore (leq : Rat → Rat → Bool) (p : Par) (rows : List Row) (cols : List DCol) : DRes :=
+  let (tmax, kmin) := pass1 p rows 0 (p.inf, -1)
+  if p.inf ≤ tmax then { stat := .unbounded, eindex := -1, tz := 0, pivot := 0, coeffch := false, ecoeff := 0 }
+  else
+    let s := pass2 leq p tmax kmin rows 0 {}
+    if s.indx < 0 then { stat := .failed, eindex := -1, tz := 0, pivot := 0, coeffch := false, ecoeff := 0 }
+    else
+      let c := colAt cols s.indx
+      if s.tz < 0 then
+        let tz := absR tmax / 20
+        let e0 := c.cz - c.dz
+        if c.vstat == vLower then
+          { stat := .bchange, eindex := s.indx, tz := tz, pivot := c.zA, coeffch := true, ecoeff := e0 + tz * s.ayi }
+        else if c.vstat == vUpper then
+          { stat := .bchange, eindex := s.indx, tz := tz, pivot := c.zA, coeffch := true, ecoeff := e0 - tz * s.ayi }
+        else
+          { stat := .bchange, eindex := s.indx, tz := 0, pivot := c.zA, coeffch := true, ecoeff := e0 }
+      else
+        { stat := .bchange, eindex := s.indx, tz := s.tz, pivot := c.zA, coeffch := false, ecoeff := 0 }
+
+def dIIWith (leq : Rat → Rat → Bool) (inf pivtol dftol : Rat) (lvUpper : Bool) (cols : List DCol) : DRes :=
+  dIICore leq (dPar inf pivtol dftol) (cols.map (toRow inf lvUpper)) cols
+
+def dII (inf pivtol dftol : Rat) (lvUpper : Bool) (cols : List DCol) : DRes :=
+  dIIWith (fun a b => decide (a ≤ b)) inf pivtol dftol lvUpper cols
+
+/-- dual slack of a column after a dual step of length `t` -/
+def newSlack (inf : Rat) (lvUpper : Bool) (c : DCol) (t : Rat) : Rat :=
+  newx (dPar inf 0 0) (toRow inf lvUpper c) t
 end Qsx.Ratio
